@@ -512,6 +512,8 @@ func (c *Ctx) dryRun(fr *Frame, loop map[*ssa.BasicBlock]bool, st *State) *write
 func (c *Ctx) havocWrites(fr *Frame, st *State, ws *writeSet, tag string) {
 	if ws.everything {
 		c.havocEverything(st)
+	} else if ws.everythingUnprotected {
+		c.havocEverythingButGhost(st)
 	}
 	var rk []regKey
 	for k := range ws.regs {
